@@ -1145,7 +1145,7 @@ func verifC09() {
 	shard, shards, isWorker := ev.Shard()
 	var parts []c09Part
 	for _, p := range c09Parts() {
-		if p.Quick || !run.Quick() {
+		if p.Quick != "" || !run.Quick() {
 			parts = append(parts, p)
 		}
 	}
@@ -1160,7 +1160,8 @@ func verifC09() {
 		b, _ := json.Marshal(scns)
 		os.WriteFile(filepath.Join(scratch, "scenarios.json"), b, 0o600)
 		os.Setenv("VERIF_C09_PHASE", "enumerate")
-		c2, samples, ok2 := run.SpawnShards(16)
+		os.MkdirAll(filepath.Join(scratch, "claim"), 0o700)
+		c2, samples, ok2 := run.SpawnShards(max(1, min(16, len(scns))))
 		for k, v := range c1 {
 			c2[k] += v
 		}
@@ -1204,17 +1205,29 @@ func verifC09() {
 		for i := range parts {
 			byName[parts[i].Name] = &parts[i]
 		}
+		// the workers take scenarios from one shared list (claimed by exclusive file creation), so a worker whose CPU
+		// is busy with something else does not hold the others up; which worker runs a scenario has no influence on it
 		for i := range scns {
-			if i%shards != shard {
-				continue
-			}
 			if run.TimeUp() {
 				complete = false
 				break
 			}
+			f, err := os.OpenFile(filepath.Join(scratch, "claim", strconv.Itoa(i)), os.O_CREATE|os.O_EXCL|os.O_WRONLY, 0o600)
+			if err != nil {
+				if os.IsExist(err) {
+					continue
+				}
+				ev.Unbound("C09: claim: " + err.Error())
+			}
+			f.Close()
 			p := byName[scns[i].Part]
 			if fxs[p.Name] == nil {
 				fxs[p.Name], _ = p.build()
+				var rec c09Rec
+				if b, err := os.ReadFile(filepath.Join(scratch, "rec", p.Name+".json")); err != nil || json.Unmarshal(b, &rec) != nil {
+					ev.Unbound("C09: no recording for " + p.Name)
+				}
+				p.cfSigs = rec.CFSigs
 			}
 			w.runScenario(p, fxs[p.Name], &scns[i])
 			w.ctr[fmt.Sprintf("done#%d", i)] = 1
@@ -1256,7 +1269,8 @@ func (w *c09Worker) record(p *c09Part) {
 	if len(rec.Jobs) < 1 {
 		ev.Unbound(fmt.Sprintf("C09: crash-free cycle over %s ran %d jobs (fixture not selected by the tiers?)", p.Name, len(rec.Jobs)))
 	}
-	e.laterCycles(s, m)
+	e.laterCycles(s, m, o)
+	rec.CFSigs = e.cfSigs
 	w.samples.Add(map[string]any{"partition": p.Name, "files": len(p.Files), "rows": nrows, "crash_free_jobs": c09Brief(rec.Jobs)})
 	for i := range rec.Jobs {
 		for j := range rec.Jobs[i].Ops {
@@ -1264,6 +1278,12 @@ func (w *c09Worker) record(p *c09Part) {
 		}
 	}
 	e.close()
+	if w.run.Quick() {
+		// the quick tier has no in-process scenarios
+		b, _ := json.Marshal(rec)
+		os.WriteFile(filepath.Join(c09Scratch(), "rec", p.Name+".json"), b, 0o600)
+		return
+	}
 	// in-process
 	e = w.newEnv(p, fx)
 	m = e.manager()
@@ -1287,8 +1307,9 @@ func (w *c09Worker) record(p *c09Part) {
 	rec.Inproc, rec.InJob, rec.InN = ops, "hourly-b1", len(cand.Files)
 	s = &c09Scn{Part: p.Name, Mode: "crash-free-inproc", Job: "hourly-b1", Label: "-"}
 	w.ctr["evals"]++
-	e.judge(s, "after-failed-job", c09Scan(w.duck, e.store, e.tags), false)
-	e.laterCycles(s, m)
+	o = c09Scan(w.duck, e.store, e.tags)
+	e.judge(s, "after-failed-job", o, false)
+	e.laterCycles(s, m, o)
 	e.close()
 	b, _ := json.Marshal(rec)
 	os.WriteFile(filepath.Join(c09Scratch(), "rec", p.Name+".json"), b, 0o600)
